@@ -2,6 +2,7 @@ import WfProofs.PolicyLemmas
 import WfProofs.PolicyBudget
 import WfProofs.RunnerAcct
 import WfProofs.EngineFork
+import WfProofs.EngineForkUnrepaired
 import WfModel.GenRetryAcct
 import WfProofs.EngineReduce
 import WfProofs.EngineWaitUnrepaired
@@ -106,20 +107,24 @@ failing step — with `attempts + 1`, the unchanged `first_attempt_at`, the exce
 and the lineage's recovery counts -/
 theorem C05_retry_requeue (cfg : Cfg) (pol : Policy) (step : Nat) (tickEv : Ev) (dc : Bool) (acc : ResAcc)
     (exc : Nat) (failedAt : Int) (c : StepCfg) (hc : cfg.find step = some c) (hretry : c.hasRetry = true) (d : Nat)
-    (hp : pol step (failedAt - acc.exec.firstAt) (acc.exec.attempts + 1) exc = .retry d) :
+    (hp : pol step (failedAt - acc.exec.firstAt) (acc.exec.attempts + 1) exc = .retry d)
+    -- (the failure of an execution that an earlier result of the same list already scheduled to run again is skipped:
+    -- `C05_failure_after_scheduled_rerun_skipped`)
+    (hsip : acc.stillInProgress = false) :
     (applyRes cfg pol step tickEv dc acc (.failed exc failedAt)).cmds = acc.cmds ++
       [.queueEvent { ev := tickEv, attempts := some (acc.exec.attempts + 1), firstAt := some acc.exec.firstAt,
                      lastExc := some exc, lastFailedAt := some failedAt, rc := acc.exec.rc } (some step) (some d)] := by
-  simp [applyRes, retryDecision, hc, hretry, hp]
+  simp [applyRes, retryDecision, hc, hretry, hp, hsip]
 
 /-- a step without a retry policy, or whose policy gives up, is not retried: with no
 handler the run fails and the failure event reports `attempts + 1` and the elapsed time -/
 theorem C05_failure_report (cfg : Cfg) (pol : Policy) (step : Nat) (tickEv : Ev) (dc : Bool) (acc : ResAcc)
     (exc : Nat) (failedAt : Int) (hnoh : handlerOwner cfg step = none)
-    (hp : retryDecision cfg pol step (failedAt - acc.exec.firstAt) (acc.exec.attempts + 1) exc = .stop) :
+    (hp : retryDecision cfg pol step (failedAt - acc.exec.firstAt) (acc.exec.attempts + 1) exc = .stop)
+    (hsip : acc.stillInProgress = false) :
     (applyRes cfg pol step tickEv dc acc (.failed exc failedAt)).cmds = acc.cmds ++
       [.publish (.failed step exc (acc.exec.attempts + 1) (failedAt - acc.exec.firstAt)), .failWorkflow step exc] := by
-  simp [applyRes, hp, hnoh]
+  simp [applyRes, hp, hnoh, hsip]
 
 /-- a re-queued retry, once started, runs with `retry_number = attempts`, the original
 `first_attempt_at` and the previous exception -/
@@ -747,18 +752,42 @@ theorem C05_accounting_source_shape :
       ("last_exception", "retry.last_exception"), ("last_failed_at", "last_failed_at")] := by
   refine ⟨rfl, rfl, rfl, rfl, rfl, rfl, rfl, rfl, rfl, rfl, rfl, rfl, rfl, rfl, rfl, rfl, rfl, rfl, rfl, rfl, rfl⟩
 
-/-! ## one failed execution, one successor — refuted -/
+/-! ## one failed execution, one successor
 
-/-- after the result list of a tick the execution is scheduled to run again at once (stale `collect_events` snapshot:
-same retry number) AND a retry of it is queued (retry number + 1): the invocation continues twice -/
+A result list may leave its execution in progress (stale `collect_events` snapshot: re-run at once, same retry number) and it
+may queue a retry (a granted `StepWorkerFailed`: run again later, retry number + 1).  Doing BOTH continues one invocation
+twice: with `stop_after_attempt(n)` the input event then runs far beyond `n` times while the failure report still says `n`.
+The unchanged code did this for `[AddCollectedEvent (stale), StepWorkerFailed]` — a collecting step with a retry policy that
+raises after its `collect_events` call while another worker has added to the buffer
+(`harness/corpus/c05_collect_rerun_forks_retry.json`; repaired: the failure of an execution already scheduled to run again is
+skipped).  The reducer before the repair is `applyResForks` / `Runner.runForks` (`WfProofs/EngineForkUnrepaired.lean`). -/
+
+/-- after the result list of a tick the execution is scheduled to run again at once AND a retry of it is queued; `ap` is the
+reducer's per-result function (`applyRes cfg pol`, or the one before the repair) -/
+def C05.forksWith (ap : Nat → Ev → Bool → ResAcc → Res → ResAcc) (step : Nat) (tickEv : Ev) (res : List Res) (st : State)
+    (exec : InProg) : Prop :=
+  (res.foldl (ap step tickEv (res.any isResult)) { st := st, exec := exec }).stillInProgress = true ∧
+  (res.foldl (ap step tickEv (res.any isResult)) { st := st, exec := exec }).cmds.any Cmd.isRetry = true
+
 def C05.forks (cfg : Cfg) (pol : Policy) (step : Nat) (tickEv : Ev) (res : List Res) (st : State) (exec : InProg) : Prop :=
-  (res.foldl (applyRes cfg pol step tickEv (res.any isResult)) { st := st, exec := exec }).stillInProgress = true ∧
-  (res.foldl (applyRes cfg pol step tickEv (res.any isResult)) { st := st, exec := exec }).cmds.any Cmd.isRetry = true
+  C05.forksWith (applyRes cfg pol) step tickEv res st exec
 
-/-- **full statement**: a failed execution has ONE successor — the re-run or the retry, never both -/
-def C05_statement_failed_execution_one_successor : Prop :=
+/-- **full statement** (for a reducer `ap`): on every result list in which nothing is collected after a failure — the step
+wrapper appends the `StepWorkerFailed` last (`GenRetryAcct.wrapperAppendsAfterFailure = []`) — a failed execution has ONE
+successor: the re-run or the retry, never both -/
+def C05_statement_failed_execution_one_successor (ap : Cfg → Policy → Nat → Ev → Bool → ResAcc → Res → ResAcc) : Prop :=
   ∀ (cfg : Cfg) (pol : Policy) (step : Nat) (tickEv : Ev) (res : List Res) (st : State) (exec : InProg),
-    ¬ C05.forks cfg pol step tickEv res st exec
+    collectAfterFailure res = false → ¬ C05.forksWith (ap cfg pol) step tickEv res st exec
+
+/-- **the reducer (repaired) satisfies it**, for every configuration, policy, state and result list -/
+theorem C05_failed_execution_one_successor : C05_statement_failed_execution_one_successor applyRes := by
+  intro cfg pol step tickEv res st exec hlast
+  exact foldl_applyRes_noFork cfg pol step tickEv _ res { st := st, exec := exec } hlast (by intro h; simp at h)
+
+/-- what the source must look like for that: the `StepWorkerFailed` branch starts with the guard, and the step wrapper appends
+nothing to its result list after the failure -/
+theorem C05_one_successor_source_shape :
+    GenRetryAcct.failureSkippedAfterRerun = true ∧ GenRetryAcct.wrapperAppendsAfterFailure = [] := ⟨rfl, rfl⟩
 
 def C05.fcfg : Cfg := { steps := [{ name := 1, accepted := [5], numWorkers := 2, hasRetry := true }] }
 def C05.fa : Ev := { ty := 5, kind := .plain, uid := 1 }
@@ -771,13 +800,24 @@ def C05.fst : State :=
         collected := [(0, [C05.fa])] } else {} }
 def C05.fexec : InProg := { ev := C05.fb, wid := 1, snapEvents := [], snapWaiters := [], attempts := 0, firstAt := 5 }
 
-/-- **refuted**: `[AddCollectedEvent (stale snapshot), StepWorkerFailed]` — a collecting step that raises after its
-`collect_events` call while another worker has added to the buffer — is re-run AND retried -/
-theorem C05_refuted_failed_execution_one_successor : ¬ C05_statement_failed_execution_one_successor := by
+/-- **the reducer before the repair: refuted** — `[AddCollectedEvent (stale snapshot), StepWorkerFailed]` is re-run AND retried -/
+theorem C05_refuted_failed_execution_one_successor_unrepaired :
+    ¬ C05_statement_failed_execution_one_successor applyResForks := by
   intro h
-  exact h C05.fcfg C05.xpol 1 C05.fb [.addCollected 0 C05.fb, .failed 7 5] C05.fst C05.fexec ⟨by decide +kernel, by decide +kernel⟩
+  exact h C05.fcfg C05.xpol 1 C05.fb [.addCollected 0 C05.fb, .failed 7 5] C05.fst C05.fexec (by decide)
+    ⟨by decide +kernel, by decide +kernel⟩
 
-/-- **the true part** (guard: the list does not carry both an `AddCollectedEvent` and a `StepWorkerFailed`) -/
+-- the same tick on the repaired reducer: re-run only
+example : ¬ C05.forks C05.fcfg C05.xpol 1 C05.fb [.addCollected 0 C05.fb, .failed 7 5] C05.fst C05.fexec :=
+  C05_failed_execution_one_successor C05.fcfg C05.xpol 1 C05.fb _ C05.fst C05.fexec (by decide)
+example : ([.addCollected 0 C05.fb, .failed 7 5].foldl (applyRes C05.fcfg C05.xpol 1 C05.fb false) { st := C05.fst, exec := C05.fexec }).cmds
+    = [.runWorker 1 C05.fb 1] := by decide +kernel
+-- the hypothesis is needed: a list that collects AFTER its failure (which no step wrapper returns) still does both
+example : C05.forks C05.fcfg C05.xpol 1 C05.fb [.failed 7 5, .addCollected 0 C05.fb] C05.fst C05.fexec :=
+  ⟨by decide +kernel, by decide +kernel⟩
+
+/-- **guarded form that does not look at the order** (the list does not carry both an `AddCollectedEvent` and a
+`StepWorkerFailed`) -/
 theorem C05_failed_execution_one_successor_partial (cfg : Cfg) (pol : Policy) (step : Nat) (tickEv : Ev) (res : List Res)
     (st : State) (exec : InProg)
     (hg : res.all (fun r => !isAddCollected r) = true ∨ res.all (fun r => !isFailed r) = true) :
@@ -787,12 +827,18 @@ theorem C05_failed_execution_one_successor_partial (cfg : Cfg) (pol : Policy) (s
   · rw [foldl_applyRes_still cfg pol step tickEv _ res _ hg] at h1; cases h1
   · rw [foldl_applyRes_noRetry cfg pol step tickEv _ res _ hg (by simp)] at h2; cases h2
 
-/-! the consequence over a whole run: with `stop_after_attempt(2)` one event fails three times -/
+/-- **a failure after a scheduled re-run is skipped**: no command, no state change, the record untouched -/
+theorem C05_failure_after_scheduled_rerun_skipped (cfg : Cfg) (pol : Policy) (step : Nat) (tickEv : Ev) (dc : Bool)
+    (acc : ResAcc) (exc : Nat) (failedAt : Int) (h : acc.stillInProgress = true) :
+    applyRes cfg pol step tickEv dc acc (.failed exc failedAt) = acc :=
+  applyRes_failed_still cfg pol step tickEv dc acc exc failedAt h
 
-/-- result ticks of step `s` for the input event `ev` that carried a failure, as logged by the runner -/
-def C05.failedTicks (r : Runner) (s : Nat) (ev : Ev) : Nat :=
+/-! the consequence over a whole run, `stop_after_attempt(2)`: how often retry number 1 of one input event is delivered -/
+
+/-- retries of the input event `ev` of step `s` with retry number `k` that the runner handed to the reducer -/
+def C05.retryDeliveries (r : Runner) (s : Nat) (ev : Ev) (k : Nat) : Nat :=
   (r.log.filter (fun p => match p.1 with
-    | .stepResult s' _ ev' res => s' == s && ev' == ev && res.any isFailed
+    | .addEvent att (some s') => s' == s && att.ev == ev && att.attempts == some k
     | _ => false)).length
 
 def C05.fr0 : Runner := Runner.init C05.fcfg initState 5 none none
@@ -800,11 +846,11 @@ def C05.facts : List Act :=
   [.external (.addEvent { ev := C05.fa } none), .external (.addEvent { ev := C05.fb } none),
    .pull, .drain, .pull, .drain,
    .workerDone 1 0 [.addCollected 0 C05.fa], .drain,
-   .workerDone 1 1 [.addCollected 0 C05.fb, .failed 7 5], .drain,   -- re-run of `b` on worker 1 AND retry 1 of `b` queued
-   .drain,                                                           -- … the retry starts on worker 0: `b` runs twice at once
-   .workerDone 1 1 [.failed 7 5], .drain,                            -- the re-run fails: retry 1 queued a second time
+   .workerDone 1 1 [.addCollected 0 C05.fb, .failed 7 5], .drain,   -- stale: `b` is run again on worker 1 (before the repair: AND retry 1 queued)
+   .drain,                                                           -- (before the repair: the retry starts on worker 0, `b` runs twice at once)
+   .workerDone 1 1 [.failed 7 5], .drain,                            -- the re-run fails: retry 1 queued (before the repair: a second time)
    .drain,
-   .workerDone 1 0 [.failed 7 5], .drain]                            -- the first retry 1 fails: budget exhausted, run fails
+   .workerDone 1 0 [.failed 7 5], .drain]                            -- retry 1 fails: budget exhausted, the run fails
 
 theorem C05.fsched : AcctSched C05.fcfg C05.xpol C05.fr0 C05.facts := by
   have hw : ∀ (r : Runner) (res : List Res), r.now = 5 → (∀ exc t, Res.failed exc t ∈ res → t = 5) →
@@ -816,13 +862,22 @@ theorem C05.fsched : AcctSched C05.fcfg C05.xpol C05.fr0 C05.facts := by
   · exact hw _ _ (by decide +kernel) (by intro exc t h; simp at h; exact h.2)
   · exact hw _ _ (by decide +kernel) (by intro exc t h; simp at h; exact h.2)
 
-/-- **an admissible schedule under `stop_after_attempt(2)` in which one input event fails three times** (each event is
-delivered once; the failure report still says `attempts = 2`) -/
-theorem C05_fork_run_exceeds_budget :
-    AcctSched C05.fcfg C05.xpol C05.fr0 C05.facts ∧
+/-- **before the repair**: on this schedule (each event delivered once, failures stamped on the clock) retry number 1 of `b`
+is delivered TWICE under `stop_after_attempt(2)`, `b` is executed four times, and the failure report says `attempts = 2` -/
+theorem C05_fork_run_exceeds_budget_unrepaired :
     (STree.leaf (.afterAttempt 2)).cap = some 2 ∧
-    C05.failedTicks (Runner.run C05.fcfg C05.xpol C05.fr0 C05.facts) 1 C05.fb = 3 ∧
+    C05.retryDeliveries (Runner.runForks C05.fcfg C05.xpol C05.fr0 C05.facts) 1 C05.fb 1 = 2 ∧
+    (Runner.runForks C05.fcfg C05.xpol C05.fr0 C05.facts).stream.filter (fun p => match p with | .failed .. => true | _ => false)
+      = [.failed 1 7 2 0] ∧
+    (Runner.runForks C05.fcfg C05.xpol C05.fr0 C05.facts).outcome = some (.failed 1 7) :=
+  ⟨by decide +kernel, by decide +kernel, by decide +kernel, by decide +kernel⟩
+
+/-- **the reducer as it is**: the same schedule is admissible, retry number 1 of `b` is delivered once, and the run ends with
+the same report -/
+theorem C05_fork_run_within_budget :
+    AcctSched C05.fcfg C05.xpol C05.fr0 C05.facts ∧
+    C05.retryDeliveries (Runner.run C05.fcfg C05.xpol C05.fr0 C05.facts) 1 C05.fb 1 = 1 ∧
     (Runner.run C05.fcfg C05.xpol C05.fr0 C05.facts).stream.filter (fun p => match p with | .failed .. => true | _ => false)
       = [.failed 1 7 2 0] ∧
     (Runner.run C05.fcfg C05.xpol C05.fr0 C05.facts).outcome = some (.failed 1 7) :=
-  ⟨C05.fsched, by decide +kernel, by decide +kernel, by decide +kernel, by decide +kernel⟩
+  ⟨C05.fsched, by decide +kernel, by decide +kernel, by decide +kernel⟩
